@@ -261,6 +261,9 @@ func kindsInText(text string) map[string]bool {
 			continue
 		}
 		w := f[0]
+		if i := strings.IndexByte(w, '#'); i > 0 {
+			w = w[:i] // a comment glued to the keyword
+		}
 		for _, k := range c18AllKinds {
 			if w == k {
 				out[k] = true
